@@ -1,6 +1,6 @@
 (* Props/C10.v -- concatenate is the inverse of splitting and refuses non-contiguous pieces. *)
 From Coq Require Import ZArith QArith Qabs List.
-From PB Require Import Model.Ledger Model.Band Model.Concat Proofs.ConcatProofs.
+From PB Require Import Model.Ledger Model.Band Model.Concat Proofs.ConcatProofs Proofs.ConcatMore Proofs.ConcatAssoc Proofs.ConcatGroup.
 Import ListNotations.
 Open Scope Z_scope.
 
@@ -35,11 +35,108 @@ Theorem C10_reject_freq_gap : forall eps rt c l x y d,
   concat eps rt 1 [ {| s_cls := c; s_led := l; s_band := Some x |}; {| s_cls := c; s_led := l; s_band := Some y |} ] = CErr 1.
 Proof. exact reject_freq_gap. Qed.
 
-(* Not (yet) stated as theorems -- carried by the correspondence run and the monitor on every sampled case:
-   C10_split_concat_freq (channel cuts), C10_assoc (any grouping), rejection at an arbitrary position of
-   a longer list, rejection for differing rate / chan_bw / off-axis start time or labels. *)
+(* frequency axis: cut the channels of a radio signal at arbitrary points c1 < c2 < ... = nchan, join along frequency:
+   class, ledger (length, rate, start time) and every channel label come back *)
+Theorem C10_split_concat_freq : forall eps rt s b c1 cs,
+  (0 <= eps)%Q -> (0 <= rt)%Q -> s_band s = Some b -> flast_cut 0 (c1 :: cs) = nchan b ->
+  exists s', concat eps rt 1 (fsplit s b (c1 :: cs)) = COk s' /\
+    s_cls s' = s_cls s /\ s_led s' = s_led s /\ band_labels_eq (s_band s') (Some b).
+Proof. exact split_concat_freq. Qed.
+
+(* associativity: joining the result of a first concatenation with further pieces has the SAME outcome (the same error, or equal
+   class / length / rate / start time / labels) as joining all pieces at once -- for arbitrary pieces, tolerances included *)
+Theorem C10_assoc_left : forall eps rt A B sA, concat eps rt 0 A = COk sA ->
+  cres_eq (concat eps rt 0 (A ++ B)) (concat eps rt 0 (sA :: B)).
+Proof. exact concat_assoc_left. Qed.
+
+(* every grouping: the pieces of a split signal joined in arbitrary runs g0, g1, ..., the run results then joined: every run is
+   accepted, the join of the runs is accepted, and it is the whole signal (is_piece s 0 len: class, rate, length, start time of
+   sample 0 when any piece kept one, labels).  concat_pieces, on which it rests, applies again to its own results: any depth. *)
+Theorem C10_any_grouping : forall eps rt s cuts g0 gs,
+  (0 <= eps)%Q -> (0 <= rt)%Q -> (0 < rate (s_led s))%Q -> (match s_band s with Some b => (0 <= bw b)%Q | None => True end) ->
+  Forall (fun g => g <> []) (g0 :: gs) -> List.concat (g0 :: gs) = tsplit s cuts -> last_cut 0 cuts = len (s_led s) ->
+  exists rs s1, Forall2 (fun g sg => concat eps rt 0 g = COk sg) (g0 :: gs) rs /\ concat eps rt 0 rs = COk s1 /\
+    is_piece s 0 (len (s_led s)) s1 /\
+    (t0 (s_led s1) = None <-> forall p, In p (tsplit s cuts) -> t0 (s_led p) = None).
+Proof. exact split_regroup. Qed.
+Theorem C10_pieces : forall s, (0 < rate (s_led s))%Q -> (match s_band s with Some b => (0 <= bw b)%Q | None => True end) ->
+  forall eps rt p0 rest c c_end, (0 <= eps)%Q -> (0 <= rt)%Q -> chain s c (p0 :: rest) c_end ->
+  exists s', concat eps rt 0 (p0 :: rest) = COk s' /\ is_piece s c (c_end - c) s' /\
+    (t0 (s_led s') = None <-> forall p, In p (p0 :: rest) -> t0 (s_led p) = None).
+Proof. exact concat_pieces. Qed.
+
+(* what ACCEPTANCE implies, hence rejection of a perturbed piece at ANY position of a list of any length *)
+Theorem C10_accepted_time : forall eps rt ps s', (0 <= eps)%Q -> concat eps rt 0 ps = COk s' -> ~ (rate (s_led s') == 0)%Q ->
+  (forall p, In p ps -> s_cls p = s_cls s') /\
+  (forall p, In p ps -> close_rel rt (rate (s_led s')) (rate (s_led p)) = true) /\
+  len (s_led s') = total_len (map s_led ps) /\
+  (forall pre p post t, ps = pre ++ p :: post -> t0 (s_led p) = Some t ->
+     exists rf, t0 (s_led s') = Some rf /\
+       (Qabs (rf + inject_Z (total_len (map s_led pre)) / rate (s_led s') - t) <= eps)%Q).
+Proof. exact accepted_time. Qed.
+Theorem C10_accepted_off_time : forall eps rt axis ps s', (0 <= eps)%Q -> axis <> 0 -> concat eps rt axis ps = COk s' ->
+  (forall p, In p ps -> s_cls p = s_cls s') /\
+  (forall p, In p ps -> close_rel rt (rate (s_led s')) (rate (s_led p)) = true) /\
+  (forall p, In p ps -> len (s_led p) = len (s_led s')) /\
+  (forall p t, In p ps -> t0 (s_led p) = Some t -> exists rf, t0 (s_led s') = Some rf /\ (Qabs (rf - t) <= eps)%Q).
+Proof. exact accepted_off_time. Qed.
+Theorem C10_accepted_bands : forall eps rt axis p0 rest s' b0, concat eps rt axis (p0 :: rest) = COk s' -> s_band p0 = Some b0 ->
+  exists bs, bands_of (p0 :: rest) = Some bs /\
+  (forall b, In b bs -> close_rel rt (bw b0) (bw b) = true) /\
+  (axis = 1 -> forall pre x y post, bs = pre ++ x :: y :: post ->
+     close_rel rt (label y 0 - label x (nchan x - 1))%Q (bw b0) = true) /\
+  (axis <> 1 -> forall b, In b bs -> all_close_abs (rt * bw b0) (labels b0) (labels b) = true).
+Proof. exact accepted_bands. Qed.
+(* rejected r := exists e, r = CErr e *)
+Theorem C10_reject_displaced_anywhere : forall eps rt pre p mid q post tp tq d r,
+  (0 <= eps)%Q -> (0 < r)%Q -> (2 * eps < 1 / r)%Q -> (1 <= Qabs d)%Q ->
+  (match pre ++ [p] with x :: _ => rate (s_led x) | [] => r end) = r ->
+  t0 (s_led p) = Some tp -> t0 (s_led q) = Some tq ->
+  (tq == tp + (inject_Z (len (s_led p) + total_len (map s_led mid)) + d) / r)%Q ->
+  rejected (concat eps rt 0 (pre ++ p :: mid ++ q :: post)).
+Proof. exact reject_displaced_anywhere. Qed.
+Theorem C10_reject_rate_anywhere : forall eps rt axis p0 rest p, In p (p0 :: rest) ->
+  close_rel rt (rate (s_led p0)) (rate (s_led p)) = false -> rejected (concat eps rt axis (p0 :: rest)).
+Proof. exact reject_rate_anywhere. Qed.
+Theorem C10_reject_bw_anywhere : forall eps rt axis p0 rest p b0, In p (p0 :: rest) -> s_band p0 = Some b0 ->
+  match s_band p with Some b => close_rel rt (bw b0) (bw b) = false | None => True end ->
+  rejected (concat eps rt axis (p0 :: rest)).
+Proof. exact reject_bw_anywhere. Qed.
+Theorem C10_reject_start_mismatch : forall eps rt axis ps p q tp tq, (0 <= eps)%Q -> axis <> 0 -> In p ps -> In q ps ->
+  t0 (s_led p) = Some tp -> t0 (s_led q) = Some tq -> (2 * eps < Qabs (tp - tq))%Q ->
+  rejected (concat eps rt axis ps).
+Proof. exact reject_start_mismatch. Qed.
+Theorem C10_reject_length_mismatch : forall eps rt axis p0 rest p, axis <> 0 -> In p (p0 :: rest) -> len (s_led p) <> len (s_led p0) ->
+  rejected (concat eps rt axis (p0 :: rest)).
+Proof. exact reject_length_mismatch. Qed.
+Theorem C10_reject_freq_gap_anywhere : forall eps rt p0 rest b0 bs pre x y post d,
+  s_band p0 = Some b0 -> bands_of (p0 :: rest) = Some bs -> bs = pre ++ x :: y :: post ->
+  (0 <= rt)%Q -> (rt < 1)%Q -> (0 < bw b0)%Q -> (1 <= Qabs d)%Q ->
+  (label y 0 == label x (nchan x - 1) + bw b0 * (1 + d))%Q ->
+  rejected (concat eps rt 1 (p0 :: rest)).
+Proof. exact reject_freq_gap_anywhere. Qed.
+Theorem C10_reject_label_mismatch : forall eps rt axis p0 rest p b0 b, axis <> 1 -> In p (p0 :: rest) -> s_band p0 = Some b0 -> s_band p = Some b ->
+  all_close_abs (rt * bw b0) (labels b0) (labels b) = false -> rejected (concat eps rt axis (p0 :: rest)).
+Proof. exact reject_label_mismatch. Qed.
+
+(* Not stated: right-nested grouping of ARBITRARY (not exactly contiguous) pieces -- with tolerances the outcome can legitimately
+   differ by which pieces are compared; on exactly contiguous pieces C10_any_grouping covers every grouping. *)
 
 Print Assumptions C10_split_concat_time.
 Print Assumptions C10_reject_class.
 Print Assumptions C10_reject_time_gap.
 Print Assumptions C10_reject_freq_gap.
+Print Assumptions C10_split_concat_freq.
+Print Assumptions C10_assoc_left.
+Print Assumptions C10_any_grouping.
+Print Assumptions C10_pieces.
+Print Assumptions C10_accepted_time.
+Print Assumptions C10_accepted_off_time.
+Print Assumptions C10_accepted_bands.
+Print Assumptions C10_reject_displaced_anywhere.
+Print Assumptions C10_reject_rate_anywhere.
+Print Assumptions C10_reject_bw_anywhere.
+Print Assumptions C10_reject_start_mismatch.
+Print Assumptions C10_reject_length_mismatch.
+Print Assumptions C10_reject_freq_gap_anywhere.
+Print Assumptions C10_reject_label_mismatch.
